@@ -12,7 +12,8 @@ SPECS = os.path.join(VERIF, 'specs')
 BUILD = os.path.join(VERIF, 'build')
 EVIDENCE = os.path.join(VERIF, 'evidence')
 REPLAY = os.path.join(EVIDENCE, 'replay')
-NCPU = min(16, os.cpu_count() or 4)
+# measured: the sandbox's 16 vCPUs give ~3.5x real parallelism (8 JVMs run 2.2x slower each), so 6 jobs
+NCPU = int(os.environ.get('VERIF_JOBS', '0')) or min(6, os.cpu_count() or 4)
 
 VERSIONS = ['3.6', '3.7', '3.8', '3.9', '3.10', '3.11', '3.12', '3.13', '3.14']
 
